@@ -83,6 +83,12 @@ func (n *ndpResponder) Unwatch(ip net.IP) error {
 	if err != nil {
 		return fmt.Errorf("looking up solicited node multicast group for %q: %s", ip, err)
 	}
+	if n.solicitedNodeGroups[group.String()] <= 0 {
+		// Watch did not join the group (joining failed): there is
+		// nothing to undo, and the count must not go negative or the
+		// next Watch would not join either.
+		return nil
+	}
 	n.solicitedNodeGroups[group.String()]--
 	if n.solicitedNodeGroups[group.String()] == 0 {
 		if err = n.conn.LeaveGroup(group); err != nil {
